@@ -11,6 +11,7 @@ import (
 	"testing"
 
 	"github.com/ory/keto/internal/check"
+	"github.com/ory/keto/internal/driver/config"
 	"github.com/ory/keto/internal/expand"
 	"github.com/ory/keto/internal/relationtuple"
 	"github.com/ory/keto/ketoapi"
@@ -73,9 +74,33 @@ func (e *apiEnv) concRequests(r interface{ Intn(int) int }, n int) []concReq {
 				ts = append(ts, &ketoapi.RelationTuple{Namespace: "Doc", Object: objs[r.Intn(len(objs))], Relation: rel, SubjectID: &s})
 			}
 			body, _ := json.Marshal(map[string]any{"tuples": ts})
+			// per-request state must not be shared between the entries of a batch either:
+			// the batch answers what its entries answer one by one
+			var singles []string
+			for _, tt := range ts {
+				singles = append(singles, check.OpenAPIRouteBase+"?"+tupleQuery(tt).Encode())
+			}
 			reqs = append(reqs, concReq{"batch", func() string {
 				c, b, p := e.do(e.read, "POST", check.BatchRoute, body)
 				return canonBody(c, b) + p
+			}})
+			reqs = append(reqs, concReq{"batch-as-singles", func() string {
+				var parts []string
+				for _, target := range singles {
+					c, b, _ := e.do(e.read, "GET", target, nil)
+					var r struct {
+						Allowed bool `json:"allowed"`
+					}
+					_ = json.Unmarshal(b, &r)
+					if c != 200 {
+						parts = append(parts, fmt.Sprintf("status%d", c))
+					} else if r.Allowed {
+						parts = append(parts, `{"allowed":true}`)
+					} else {
+						parts = append(parts, `{"allowed":false}`)
+					}
+				}
+				return "200:{\"results\":[" + strings.Join(parts, ",") + "]}"
 			}})
 		case 2:
 			eq := url.Values{"namespace": {"Doc"}, "object": {obj}, "relation": {"viewers"}, "max-depth": {"4"}}
@@ -121,6 +146,10 @@ func (e *apiEnv) concRequests(r interface{ Intn(int) int }, n int) []concReq {
 		}
 	}
 	return reqs
+}
+
+func (e *apiEnv) reloadNamespaces() error {
+	return e.reg.Config(e.ctx).Set(config.KeyNamespaces, map[string]any{"location": "file://" + e.oplFile})
 }
 
 func (e *apiEnv) seedState(r interface{ Intn(int) int }) error {
@@ -203,6 +232,13 @@ func streamConc(t *testing.T, o *Out, race bool) {
 				}(w)
 			}
 		}
+		if race && i%2 == 1 {
+			// a namespace reload right before the requests: the namespace manager is created
+			// by whichever request gets there first
+			if err := env.reloadNamespaces(); err != nil {
+				t.Fatal(err)
+			}
+		}
 		close(start)
 		wg.Wait()
 		if race {
@@ -212,6 +248,12 @@ func streamConc(t *testing.T, o *Out, race bool) {
 		}
 		same, diff := 1, ""
 		for j := range reqs {
+			if reqs[j].name == "batch-as-singles" && j > 0 && solo[j] != solo[j-1] {
+				same = 0
+				if diff == "" {
+					diff = fmt.Sprintf("batch answers %.200s, its entries one by one %.200s", solo[j-1], solo[j])
+				}
+			}
 			if got[j] != solo[j] {
 				same = 0
 				if diff == "" {
